@@ -247,7 +247,7 @@ def tla_fun_of_seqs(name, d):
     items = ["(%s :> <<%s>>)" % (tla_str(k), ", ".join(tla_str(x) for x in v)) for k, v in sorted(d.items())]
     return "%s == %s\n" % (name, " @@ ".join(items))
 
-def accepted(run, exe, U, regex_extra=0, rnd=None):
+def accepted(run, exe, U, regex_extra=0, rnd=None, tokens=0, tokens_cap=300):
     """ask the real parser which universe members it accepts: {eco: [texts]} (order kept). With
     regex_extra > 0 the candidates are widened (B2) by strings sampled from the regular expressions
     found in the parsers' sources (lib/regexgen.py)."""
@@ -260,6 +260,12 @@ def accepted(run, exe, U, regex_extra=0, rnd=None):
     out = {}
     for ev in read_ndjson(ep):
         out[ev["eco"]] = [t for t, ok in zip(ev["texts"], ev["ok"]) if ok]
+    if tokens:
+        # plus a seeded sample of the small-scope token universe (Tokens.tla), already filtered by the parser
+        tok, _ = token_universe(run, exe, sorted(U), tokens, cap=tokens_cap, rnd=rnd or random.Random(seed()))
+        for e in out:
+            have = set(out[e])
+            out[e] += [t for t in tok.get(e, []) if t not in have]
     return out
 
 BOUNDARY = [0, 9, 10, 255, 256, 65535, 65536, 65537, 99999, 1000000000, 2147483647, 2147483648, 4294967295, 4294967296,
